@@ -26,7 +26,8 @@ POOL = {
     "Integer": [0, 1, -7, 42, None], "Number": [0.0, 1.0, 3.0, -2.0, 2.5, -0.5, None], "Boolean": [True, False, None],
     "String": ["42", "-7", "3.5", "abc", "true", "2020-01-15", "2020Q1", "2020-M03", "2020-01-01/2020-12-31", "A", "P1Y", "", None],
     "Date": ["2020-01-15", "2020-12-31", None], "Time_Period": ["2020", "2020S2", "2020Q1", "2020M3", "2020W5", "2020D45", None],
-    "Time": ["2020-01-01/2020-12-31", "2020-01-15/2020-01-15", None], "Duration": ["A", "M", "D", None],
+    "Time": ["2020-01-01/2020-12-31", "2020-01-15/2020-01-15", "2019-12-30/2020-01-05", "2024-12-30/2025-01-05", "2020-03-02/2020-03-08", "2020-02-01/2020-02-29",
+             "2020-04-01/2020-06-30", "2020-07-01/2020-12-31", None], "Duration": ["A", "M", "D", None],
 }
 
 
@@ -66,6 +67,29 @@ def tp_canon(s):
     m = re.fullmatch(r"(\d{4})(?:-?([ASQMWD])-?(\d+))?", s)
     if m:
         return m.group(1) if not m.group(2) or m.group(2) == "A" else f"{m.group(1)}{m.group(2)}{int(m.group(3))}"
+    return None
+
+
+def interval_period(v):
+    """the calendar period an interval is exactly equal to (VTL spelling), else None"""
+    import calendar
+    import datetime
+    a, b = (datetime.date.fromisoformat(x) for x in v.split("/"))
+    if a == b:
+        return f"{a.year}D{a.timetuple().tm_yday}"
+    if a.weekday() == 0 and (b - a).days == 6:
+        iso = a.isocalendar()
+        return f"{iso[0]}W{iso[1]}"
+    if a.day == 1 and a.year == b.year and b.day == calendar.monthrange(b.year, b.month)[1]:
+        span = (a.month, b.month)
+        if span == (1, 12):
+            return str(a.year)
+        if span in ((1, 6), (7, 12)):
+            return f"{a.year}S{1 if a.month == 1 else 2}"
+        if b.month - a.month == 2 and a.month % 3 == 1:
+            return f"{a.year}Q{(a.month + 2) // 3}"
+        if a.month == b.month:
+            return f"{a.year}M{a.month}"
     return None
 
 
@@ -117,6 +141,9 @@ def expected(src, tgt, v):
         if src == "Time_Period":
             return ("unspec",)
         return ("unspec",)
+    if src == "Time" and tgt == "Time_Period":
+        p = interval_period(v)
+        return ("value", p) if p else ("unspec",)
     if src == "Date" and tgt == "Time_Period":
         d = datetime.date.fromisoformat(v)
         return ("value", f"{d.year}D{d.timetuple().tm_yday}")
@@ -158,10 +185,41 @@ def run_shard(spec, emit):
                     emit({"v": "viol", "b": b, "mech": f"forbidden-pair-wrong-error/{type(r1).__name__}/{src}->{tgt}", "what": f"{script}: rejected with {type(r1).__name__}: {str(r1)[:120]} instead of a SemanticError", "case": case})
                 else:
                     emit({"v": "held", "b": b})
+            if (src, tgt) == ("Time", "Time_Period"):
+                # the docs table does not list this pair, the engine converts it anyway (listed finding): where the calendar fixes the
+                # answer (an interval that is exactly one period) the converted value is still checked
+                for v in POOL[src]:
+                    e = interval_period(v) if v else None
+                    if not e:
+                        continue
+                    script = f"DS_r <- DS_1[calc Me_2 := cast(Me_1, {tn})];"
+                    s3, r3 = eng.call(eng.run, script, st, {"DS_1": eng.mkdf(["Id_1", "Me_1"], [(1, v)])})
+                    if s3 != "ok":
+                        continue
+                    got = eng.norm(r3["DS_r"].data["Me_2"].tolist()[0])
+                    b = f"{src}->{tgt}/component/undocumented-pair-value"
+                    if isinstance(got, str) and tp_canon(got) == e:
+                        emit({"v": "held", "b": b})
+                    else:
+                        emit({"v": "viol", "b": b, "mech": f"wrong-converted-value/{src}->{tgt}/undocumented-pair", "what": f"{script} on {v!r}: returned {got!r}, the interval is the period {e}",
+                              "case": {"src": src, "tgt": tgt, "value": v, "script": script}})
             continue
         for v in POOL[src]:
             exp = expected(src, tgt, v)
-            for level in ("scalar", "component", "dataset"):
+            level_vals = {}
+            for level in ("scalar", "component", "dataset", "compare-levels"):
+                if level == "compare-levels":
+                    # the same value cast inside calc and at dataset level must convert to the same result
+                    if "component" in level_vals and "dataset" in level_vals:
+                        a, c = level_vals["component"], level_vals["dataset"]
+                        same = (a is None and c is None) or (a is not None and c is not None and (eng.close(a, c, 1e-9) if not isinstance(a, str) else a == c))
+                        b = f"{src}->{tgt}/levels-agree"
+                        if same:
+                            emit({"v": "held", "b": b})
+                        else:
+                            emit({"v": "viol", "b": b, "mech": f"component-and-dataset-level-disagree/{src}->{tgt}",
+                                  "what": f"cast of {v!r} ({src}) to {tn}: {a!r} inside calc, {c!r} at dataset level", "case": {"src": src, "tgt": tgt, "value": v}})
+                    continue
                 if level == "scalar":
                     script = f"sc_r <- cast({lit(src, v)}, {tn});"
                 elif level == "component":
@@ -200,6 +258,7 @@ def run_shard(spec, emit):
                         continue
                     got = eng.norm(ds.data[name].tolist()[0]) if len(ds.data) else None
                     gtype = ds.components[name].data_type.__name__
+                    level_vals[level] = got
                     if level == "dataset":
                         want_name = "Me_1" if (src, tgt) in implicit or src == tgt else ren.get(tgt)
                         if want_name and name != want_name:
@@ -214,7 +273,7 @@ def run_shard(spec, emit):
                     continue
                 if exp[0] == "value":
                     e = exp[1]
-                    same = eng.close(eng.norm(got), e, 1e-9) if not isinstance(e, str) else got == e
+                    same = eng.close(eng.norm(got), e, 1e-9) if not isinstance(e, str) else (got == e or (tgt == "Time_Period" and isinstance(got, str) and tp_canon(got) == e))
                     if not same:
                         emit({"v": "viol", "b": b, "mech": f"wrong-converted-value/{src}->{tgt}/{level}", "what": f"{script} on {v!r}: returned {got!r}, documented {e!r}", "case": case})
                         continue
